@@ -50,6 +50,9 @@ struct Engine {
   std::vector<uint32_t> offered;      // coupons of everything offered since the last reset
   bool any_offered = false;
   bool reset_seen = false;
+  bool epoch_open = false;            // after a reset(): no non-empty input has followed yet
+  bool first_hll_by_rvalue = false;   // exact epoch after a reset: the first (HLL-mode) input came through update(&&)
+  bool relaxed = false;               // lg_k rule of the current epoch: only 4 <= lg_k <= lg_max_k is asserted
   unsigned exp_lg_k = 0;              // min(lg_max_k, lg_k of every non-empty HLL-mode operand) since construction
   int fresh = 0;                      // 1: last update down-sampled the first (gadget empty) HLL operand; 2: other fresh down-sample
   std::string trace;
@@ -110,7 +113,35 @@ static void classify(Engine& E, const Operand& op, bool rvalue) {
   if (nf == 2) count("downsample_later");
 }
 
+// After reset() the property does not say whether precision given up earlier returns, and the library keeps the reduced
+// lg_k when raw items / LIST / SET inputs follow: that continuation stays under the relaxed rule.  But when the FIRST
+// non-empty input after the reset is an HLL-mode sketch, the earlier inputs are no longer part of the union and the
+// statement applies in full: lg_k == min(lg_max_k, lg_k of the HLL-mode inputs since the reset).
+static void epoch_rule(Engine& E, const Operand& op, bool rvalue) {
+  if (!E.reset_seen || !E.epoch_open || op.empty()) return;
+  E.epoch_open = false;
+  if (!op.raw && op.mode == M_HLL) {
+    E.relaxed = false;
+    E.first_hll_by_rvalue = rvalue;
+    E.exp_lg_k = E.lg_max_k;          // offer() lowers it to op.lg_k if that is smaller
+    const unsigned stale = E.u->get_lg_config_k();
+    count(rvalue ? "reset_then_hll_first_rvalue" : "reset_then_hll_first_lvalue");
+    if (std::min(op.lg_k, E.lg_max_k) > stale) count(rvalue ? "reset_then_hll_first_above_stale_gadget_lg_k_rvalue" : "reset_then_hll_first_above_stale_gadget_lg_k_lvalue");
+  } else {
+    E.relaxed = true;
+    count("reset_then_coupon_or_raw_first");
+  }
+}
+
+static void do_reset(Engine& E) {
+  E.u->reset();
+  E.offered.clear(); E.any_offered = false; E.reset_seen = true; E.fresh = 0; E.trace += "RESET ";
+  E.epoch_open = true; E.relaxed = true;
+  count("resets");
+}
+
 static void offer(Engine& E, const Operand& op, bool rvalue) {
+  epoch_rule(E, op, rvalue);
   if (op.raw) {
     for (const Val& v : op.items) apply_update(*E.u, v);
     if (!op.items.empty()) E.fresh = 0;
@@ -171,7 +202,10 @@ static Final observe(Engine& E, Rng& r, bool final_obs, bool need8 = false) {
   const std::string ctx = E.ctx + " trace=[" + E.trace + "] offered=" + std::to_string(E.offered.size());
   count("observations");
   const unsigned ulgk = E.u->get_lg_config_k();
-  if (!E.reset_seen) {
+  if (!E.relaxed && E.reset_seen) {
+    VF_CHECK(ulgk == E.exp_lg_k, std::string("union|lg_k|after-reset|first-input-hll-mode-by-") + (E.first_hll_by_rvalue ? "rvalue" : "lvalue") +
+             "|not-min-of-lg_max_k-and-hll-mode-inputs-since-reset", ctx + " observed=" + std::to_string(ulgk) + " expected=" + std::to_string(E.exp_lg_k));
+  } else if (!E.relaxed) {
     VF_CHECK(ulgk == E.exp_lg_k, "union|lg_k|not-min-of-lg_max_k-and-hll-mode-operands", ctx + " observed=" + std::to_string(ulgk) + " expected=" + std::to_string(E.exp_lg_k));
   } else {
     VF_CHECK(ulgk <= E.lg_max_k && ulgk >= 4, "union|lg_k|outside-4..lg_max_k-after-reset", ctx + " observed=" + std::to_string(ulgk));
@@ -426,9 +460,7 @@ void run_case(uint64_t idx, Rng& r) {
       offer(E, ops[seq[s]], r.chance(p_rv));
       if (!silent) { while (r.chance(0.45)) poke(E, r); if (r.chance(0.6)) observe(E, r, false); }
       if (with_reset && s + 1 == reset_at) {
-        E.u->reset();
-        E.offered.clear(); E.any_offered = false; E.reset_seen = true; E.fresh = 0; E.trace += "RESET ";
-        count("resets");
+        do_reset(E);
         if (r.chance(0.5)) observe(E, r, false);
       }
     }
@@ -439,7 +471,22 @@ void run_case(uint64_t idx, Rng& r) {
                               ",\"result_mode\":" + jstr(mode_name(F.mode)) + ",\"estimate\":" + str(E.u->get_estimate()) + "}");
   }
 
-  // ---------------------------------------------------------------- every permutation of the operands (no reset)
+  // ---------------------------------------------------------------- every permutation of the operands
+  // In a quarter of the cases every presentation starts with an earlier life: an HLL-mode sketch of small lg_k (leaves the
+  // gadget at a reduced lg_k), then reset().  Presentations whose first non-empty operand is an HLL-mode sketch are then
+  // under the exact lg_k rule and are compared with each other; the others stay under the relaxed rule.
+  Operand pre;
+  const bool prelude = !any_big && lg_max_k > 4 && r.chance(0.25);
+  if (prelude) {
+    pre.lg_k = static_cast<unsigned>(r.range(4, lg_max_k - 1)); pre.type = static_cast<int>(r.below(3)); pre.full = true;
+    pre.sk.reset(new hll_sketch(static_cast<uint8_t>(pre.lg_k), tgt(pre.type), true));
+    const uint64_t pc = 1 + r.below(200);
+    for (uint64_t j = 0; j < pc; ++j) { Val v = make_val(cfg, (1ULL << 30) + j); if (!v.ignored()) pre.coupons.push_back(coupon_of(v)); apply_update(*pre.sk, v); }
+    if (pre.coupons.empty()) { Val v; v.kind = V_U64; v.u = 1; pre.coupons.push_back(coupon_of(v)); apply_update(*pre.sk, v); }
+    pre.mode = M_HLL;
+    pre.desc = "PRE lg" + std::to_string(pre.lg_k) + "," + type_name(pre.type) + "F";
+    count("prelude_cases");
+  }
   std::vector<size_t> perm(nops);
   for (size_t i = 0; i < nops; ++i) perm[i] = i;
   const size_t max_perms = any_big ? 4 : (nops <= 4 ? 24 : 12);
@@ -451,6 +498,11 @@ void run_case(uint64_t idx, Rng& r) {
     const bool silent = r.chance(0.5);
     const double p_rv = r.pick({0.0, 0.5, 1.0});
     const bool step_obs = !silent && !any_big && r.chance(0.5);
+    if (prelude) {
+      offer(E, pre, r.coin());
+      if (!silent && r.chance(0.3)) poke(E, r);
+      do_reset(E);
+    }
     for (size_t s = 0; s < p.size(); ++s) {
       offer(E, ops[p[s]], r.chance(p_rv));
       if (!silent) { while (r.chance(0.35)) poke(E, r); if (step_obs) observe(E, r, false); }
@@ -459,10 +511,11 @@ void run_case(uint64_t idx, Rng& r) {
     count("perm_runs"); count(silent ? "silent_runs" : "chatty_runs");
     if (p_rv == 0.0) count("all_lvalue_runs"); else if (p_rv == 1.0) count("all_rvalue_runs");
     if (F.valid) {
-      if (!first.valid) { first = F; first_trace = E.trace; }
+      if (E.relaxed) count("presentations_under_relaxed_lg_k_rule");     // lg_k may legitimately differ: not cross-compared
+      else if (!first.valid) { first = F; first_trace = E.trace; }
       else {
         const std::string c2 = cdesc + " A=[" + first_trace + "] B=[" + E.trace + "]";
-        VF_CHECK(F.lg_k == first.lg_k, "union|order-dependence|lg_k-differs-between-presentations", c2 + " " + std::to_string(first.lg_k) + " vs " + std::to_string(F.lg_k));
+        VF_CHECK(F.lg_k == first.lg_k, prelude ? "union|order-dependence|after-reset|lg_k-differs-between-presentations" : "union|order-dependence|lg_k-differs-between-presentations", c2 + " " + std::to_string(first.lg_k) + " vs " + std::to_string(F.lg_k));
         if (F.lg_k == first.lg_k && F.mode == M_HLL && first.mode == M_HLL)
           VF_CHECK(F.regs == first.regs, "union|order-dependence|registers-differ-between-presentations", c2 + diff_registers(F.regs, first.regs).detail);
         if (F.mode != M_HLL && first.mode != M_HLL)
